@@ -1030,11 +1030,52 @@ def ones(shape, dtype=None):
     return full(shape, 1.0 if dtype in (None, float) else 1)
 
 
+class ObjArray:
+    """1-D numpy array of dtype=object with a concrete length, for the one idiom the package
+    uses (cubepart._Slice._pairwise_indices): `a = np.empty((n,), dtype=object)`,
+    `a[:] = [python objects]`, then len / integer index / iteration.  Every other use is out
+    of reach."""
+
+    def __init__(self, n):
+        self._n = n
+        self._items = [None] * n
+        self.shape = (n,)
+        self.ndim = 1
+        self.dtype = object
+
+    def __len__(self):
+        return self._n
+
+    def __setitem__(self, key, value):
+        if key != slice(None) or not isinstance(value, list):
+            raise OutOfReach("object array: assignment other than a[:] = list")
+        if len(value) != self._n:
+            raise ValueError(
+                "could not broadcast input array from shape (%d,) into shape (%d,)" % (len(value), self._n)
+            )
+        self._items = list(value)
+
+    def __getitem__(self, key):
+        if isinstance(key, int) and not isinstance(key, bool):
+            return self._items[key]
+        raise OutOfReach("object array: index other than a concrete int")
+
+    def __iter__(self):
+        return iter(self._items)
+
+    def __getattr__(self, name):
+        raise OutOfReach("object array attribute %s" % name)
+
+
 def empty(shape, dtype=None):
     # contents unspecified: model as a fresh uninterpreted value per cell
     if not isinstance(shape, (tuple, list)):
         shape = (shape,)
     shape = tuple(raw(d) for d in shape)
+    if dtype is object:
+        if len(shape) == 1 and isinstance(shape[0], int):
+            return ObjArray(shape[0])
+        raise OutOfReach("np.empty(dtype=object) of symbolic or multi-dimensional shape")
     nm = ctx().fresh("empty")
     f = z3.Function(nm, *([z3.IntSort()] * len(shape) + [z3.RealSort()]))
     if not shape:
